@@ -266,13 +266,24 @@ impl TensorWal {
         let path = path.as_ref().to_path_buf();
 
         // Get current size if file exists
-        let current_size = if path.exists() {
+        let mut current_size = if path.exists() {
             std::fs::metadata(&path)?.len()
         } else {
             0
         };
 
         let file = OpenOptions::new().create(true).append(true).open(&path)?;
+
+        // A crash in the middle of a write leaves a partial record at the end of the
+        // file. Appending after it would bury the next record inside the torn one's
+        // declared length, so replay would lose it (or fail). Cut the torn tail off
+        // before accepting new writes.
+        let valid_len = Self::complete_records_len(&path)?;
+        if valid_len < current_size {
+            file.set_len(valid_len)?;
+            file.sync_all()?;
+            current_size = valid_len;
+        }
 
         Ok(Self {
             file: BufWriter::new(file),
@@ -282,6 +293,37 @@ impl TensorWal {
             current_size,
             pending_sync_count: 0,
         })
+    }
+
+    /// Byte length occupied by the complete `[length][checksum][payload]` records at
+    /// the start of the file; anything after it is a partially written record.
+    fn complete_records_len(path: &Path) -> io::Result<u64> {
+        let file = match File::open(path) {
+            Ok(f) => f,
+            Err(e) if e.kind() == io::ErrorKind::NotFound => return Ok(0),
+            Err(e) => return Err(e),
+        };
+        let total = file.metadata()?.len();
+        let mut reader = BufReader::new(file);
+        let mut valid_len = 0u64;
+
+        loop {
+            let mut header = [0u8; 8];
+            match reader.read_exact(&mut header) {
+                Ok(()) => {},
+                Err(e) if e.kind() == io::ErrorKind::UnexpectedEof => break,
+                Err(e) => return Err(e),
+            }
+            let len = u64::from(u32::from_le_bytes([header[0], header[1], header[2], header[3]]));
+            if valid_len + 8 + len > total {
+                break;
+            }
+            let Ok(skip) = i64::try_from(len) else { break };
+            reader.seek_relative(skip)?;
+            valid_len += 8 + len;
+        }
+
+        Ok(valid_len)
     }
 
     /// Get the WAL file path.
